@@ -66,6 +66,14 @@ var props = map[string]*propCfg{
 		Technique:   "runtime monitoring: exhaustive class table vs float64 hardware reference; panic classifier (recover) over hostile workloads",
 		DesignRef:   "DESIGN.md §4 C04",
 	},
+	"C02": {
+		Rule: "55% arithmetic cases (C01's generator for Add/Sub/Mul/Quo/Set/SetPrec plus C03's FMA generator, 35% of them re-targeted at a precision that makes the exact result representable so that Exact must be reported iff nothing was lost) and 45% setter cases: SetUint64/SetInt64 (edge values around 2^63, 2^64, 10^19, rounding-aimed digit strings), SetInt (1..6 000 digits, powers of 2 and 10, zero), SetRat (random, terminating and rounding-aimed exact quotients), NewDecimal (exponents over all of int incl. the int64 extremes), SetMantExp (results within +-3 of both range ends, int64-extreme offsets, zeros, infinities), base-10 literals via Parse(s,10), Parse(s,0) with '_' separators, SetString and UnmarshalText (leading/trailing zeros, point anywhere, exponents to both range ends); receiver precision 0 or 1..45 or digit count +-3, six modes. Oracle: only the line Acc == sign(stored - exact), evaluated by exact magnitude comparison against the stored value (infinities as +-oo, underflowed zeros against the tiny exact value); model #1 is used as a cross-check of that truth. Every case is non-trivial; distinct = hashes of the case description.",
+		Assumptions: []string{"Neg/Abs are not in the statement's list and are not judged", "for SetInt/SetRat with precision 0 the resulting precision is taken as found (C09 judges it)", "FMA cases whose exact product leaves the exponent range are known finding D15"},
+		Floors:      []floor{{"expected-acc/0", 100000}, {"expected-acc/1", 50000}, {"expected-acc/-1", 50000}, {"SetMantExp", 5000}, {"NewDecimal", 5000}, {"SetRat", 5000}, {"Parse10", 3000}, {"UnmarshalText", 3000}, {"FMA/", 10000}, {"Quo/", 10000}},
+		LevelText:   "Runtime monitoring of the accuracy flag against the exact value on every rounding operation of the statement; needs only the stored value and the exact value, not the rounding algorithm.",
+		Technique:   "runtime oracle monitoring: sign(stored - exact) by exact big.Int comparison on generated hostile inputs",
+		DesignRef:   "DESIGN.md §4 C02",
+	},
 }
 
 func writeManifest() {
